@@ -24,7 +24,8 @@ RULE = ("one case = random map pipeline (1-5 functions, axes 1-3, zip/outer/redu
         "reading of the workload (sim/interp.py: MapSpec index arithmetic without pipefunc code) and an independent call count from "
         "the axis sizes; 30% of the cases map the same Pipeline object a second time under another configuration, 10% add a restricted run "
         "(fixed_indices) whose calls must all be calls of the full run; mapped root arrays may come from PipeFunc defaults (alone, or of another "
-        "length and overridden by the input). "
+        "length and overridden by the input); for half of the thread-pool cases every source line of pipefunc's storage modules is "
+        "a pre-emption point (sys.settrace), not only the seams; storages that need a folder are also used without run_folder. "
         "distinct_nontrivial = distinct (workload+config digest, task start/end/RPC order digest) pairs among runs in "
         "which at least two executor tasks were in flight at the same time")
 COMPONENTS = {
@@ -36,7 +37,8 @@ COMPONENTS = {
     "not_run": ["zarr storages", "SLURM executor", "progress widgets"],
 }
 ASSUMPTIONS = [
-    "pre-emption only at seams (submit, task start/end, Future.result, FS mutation, manager RPC, user-function entry/exit)",
+    "pre-emption only at seams (submit, task start/end, Future.result, FS mutation, manager RPC, user-function entry/exit), plus "
+    "every source line of pipefunc/map/_storage_array/* for thread-pool cases with line-level pre-emption switched on",
     "process isolation emulated by pickle round-trips inside one interpreter",
     "oracle is relative to the sequential dict-storage run of the same tree",
 ]
